@@ -1084,10 +1084,22 @@ func (il *inliner) hoistFirstCall(f *ast.File, encl *ast.FuncDecl, st ast.Stmt, 
 		}
 		root = x.Tag
 	case *ast.IfStmt:
-		if x.Init != nil {
-			return "", false
-		}
 		root = x.Cond
+		if x.Init != nil {
+			// the init statement runs first, once: `if v, err = f(h(a)); err != nil {` — hoist out of it
+			switch in := x.Init.(type) {
+			case *ast.ExprStmt:
+			case *ast.AssignStmt:
+				for _, l := range in.Lhs {
+					if !simpleOperand(l) {
+						return "", false
+					}
+				}
+			default:
+				return "", false
+			}
+			root = x.Init
+		}
 	default:
 		return "", false
 	}
